@@ -407,7 +407,7 @@ func c06Judge(r *R, out *c06Out, phase string) {
 	}
 	if len(r.viol) > 0 {
 		r.Tracef("server output: %q", clipStr(string(out.srvOut), 2000))
-		for _, l := range out.log.lines {
+		for _, l := range out.log.all() {
 			r.Tracef("server log: %s", clipStr(l, 300))
 		}
 	}
